@@ -2,7 +2,19 @@
 
 STRVALS = {"pkg": "./pkg/strvals", "files": ["pkg/strvals/h_c04_set.go"]}
 
+STORAGE = {"pkg": "./pkg/storage", "files": ["pkg/storage/h_common.go", "pkg/storage/h_c10_mem.go"]}
+
 CHECKS = {
+    # engine self-test (setup_cmd): a harness with a deliberately false assertion must yield a
+    # solver counterexample that reproduces natively; sampled paths must agree with native runs
+    "SELFTEST": {
+        "runs": [{"pkg": "./pkg/strvals", "files": ["pkg/strvals/h_bringup.go"], "entries": ["HBringupConcrete", "HBringupSym", "HBringupBad"]}],
+        "bounds": {}, "assumptions": ["self-test only"],
+    },
+    "C10": {
+        "runs": [dict(STORAGE, entries=["H10MemStep"], bounds_quick={"recs": 2, "namelen": 3, "maxver": 9}, bounds_thorough={"recs": 2, "namelen": 4, "maxver": 99})],
+        "bounds": {}, "assumptions": [],
+    },
     "C04": {
         "runs": [
             dict(STRVALS, entries=["H04SetScalar", "H04SetTyped", "H04SetList", "H04SetLiteral", "H04SetFrame"],
